@@ -536,11 +536,33 @@ fn emit_fn(cx: &mut Ctx, specs: &mut Specs, em: &mut Emitter, ex: &Extract, file
     };
     let mut block = f.block.clone();
     if ex.kind == "stub" || ex.kind == "decl" { block = syn::parse_quote!({}); }   // only the signature and the contract of a stub are used
+    // C1r: an Option/Result adapter chain in tail position of a function that returns a Result works on a Result
+    { let rt = ret_ty.as_ref().map(|t| nospace(&t.to_token_stream().to_string())).unwrap_or_default();
+      let is_res = ["Result<", "DynResult<", "crate::error::Result<", "crate::DynResult<", "crate::Result<"].iter().any(|p| rt.starts_with(p));
+      if is_res { if let Some(syn::Stmt::Expr(syn::Expr::MethodCall(m), None)) = block.stmts.last_mut() { let n = m.method.to_string(); if (n == "map" || n == "and_then") && m.args.len() == 1 { m.method = syn::Ident::new(&format!("{}__hxres", n), m.method.span()); } } } }
     rw.visit_block_mut(&mut block);
     let nloops = rw.loops;
     let lifted_closures = std::mem::take(&mut rw.lifted_closures);
     drop(rw);
     if mut_self && !lifted { cx.fire("S1"); let st: syn::Stmt = syn::parse_quote!(let mut this = self;); block.stmts.insert(0, st); }
+    // `@proof F before <callee>`: proof text placed before every top-level statement of the body that calls <callee>
+    {
+        let fkey = if let Some(k) = ex.opt("key") { k } else if (!lifted && fd.im.is_some()) || in_trait.is_some() { ex.path.clone() } else { name.clone() };
+        let keys: Vec<String> = specs.sections.keys().filter(|k| k.starts_with(&format!("proof {} before ", fkey))).cloned().collect();
+        for key in keys {
+            let callee = key.rsplit(' ').next().unwrap().to_string();
+            let txt = specs.get(&key).unwrap_or_default();
+            struct Calls<'a>(&'a str, bool);
+            impl<'a, 'b> syn::visit::Visit<'b> for Calls<'a> {
+                fn visit_expr_method_call(&mut self, m: &'b syn::ExprMethodCall) { if m.method == self.0 { self.1 = true; } syn::visit::visit_expr_method_call(self, m); }
+                fn visit_expr_call(&mut self, c: &'b syn::ExprCall) { if let syn::Expr::Path(p) = &*c.func { if p.path.segments.last().map(|s| s.ident == self.0).unwrap_or(false) { self.1 = true; } } syn::visit::visit_expr_call(self, c); }
+            }
+            let mut idxs = vec![];
+            for (i, st) in block.stmts.iter().enumerate() { let mut c = Calls(&callee, false); syn::visit::Visit::visit_stmt(&mut c, st); if c.1 && !matches!(st, syn::Stmt::Expr(syn::Expr::Loop(_), _) | syn::Stmt::Expr(syn::Expr::While(_), _) | syn::Stmt::Expr(syn::Expr::ForLoop(_), _)) { idxs.push(i); } }
+            if idxs.is_empty() { cx.soft.push(format!("lost anchor: `@{}`: no top-level statement of `{}` calls `{}`", key, fkey, callee)); }
+            for i in idxs.into_iter().rev() { let k = em.prooftexts.len(); em.prooftexts.push(txt.clone()); let lit = proc_macro2::Literal::usize_unsuffixed(k); let st: syn::Stmt = syn::parse_quote!(__hx_prooftext(#lit);); block.stmts.insert(i, st); cx.fire("PB"); }
+        }
+    }
 
     // ---- probes (vacuity guard, DESIGN §6 step 4)
     let mut probes: Vec<(usize, String)> = vec![];
@@ -723,7 +745,7 @@ fn positional_order(sig: &str, lc: &rewrite::LiftedClosure) -> Vec<usize> {
     let mut order = vec![]; let mut ci = 0usize;
     for w in &want {
         while ci < lc.captures.len() {
-            let known = lc.cap_types.get(ci).cloned().flatten();
+            let known = lc.cap_types.get(ci).cloned().flatten().filter(|t| !t.starts_with('?'));
             let skip = match &known { Some(t) => norm(t) != *w, None => false };
             if skip && lc.captures.len() - ci > want.len() - order.len() { ci += 1; } else { break; }
         }
@@ -734,6 +756,41 @@ fn positional_order(sig: &str, lc: &rewrite::LiftedClosure) -> Vec<usize> {
     order
 }
 fn emit_lifted(cx: &mut Ctx, specs: &mut Specs, em: &mut Emitter, gens: &[&syn::Generics], lc: &rewrite::LiftedClosure, file: &str) -> Vec<rewrite::LiftedClosure> {
+    // L1n: the closure's own parameters are matched to the contract signature by position (the last parameters of `@sig F`, in order):
+    // a renamed closure parameter is renamed back to the contract's name in the lifted body
+    let renamed: Option<rewrite::LiftedClosure>;
+    let lc: &rewrite::LiftedClosure = {
+        let mut out: Option<rewrite::LiftedClosure> = None;
+        if let Some(sg) = specs.sections.get(&format!("sig {}", lc.name)).cloned() {
+            let sg = sg.trim(); let head = match sg.rsplit_once("->") { Some((a, _)) if a.trim_end().ends_with(')') => a.trim(), _ => sg };
+            let inner = head.trim_start_matches('(').trim_end_matches(')');
+            let mut names = vec![]; let mut depth = 0i32; let mut cur = String::new();
+            for ch in inner.chars() { match ch { '<' | '(' | '[' => { depth += 1; cur.push(ch); } '>' | ')' | ']' => { depth -= 1; cur.push(ch); } ',' if depth == 0 => { names.push(cur.clone()); cur.clear(); } _ => cur.push(ch) } }
+            if !cur.trim().is_empty() { names.push(cur); }
+            let names: Vec<String> = names.iter().map(|n| n.split(':').next().unwrap_or("").trim().trim_start_matches("mut ").to_string()).collect();
+            let k = lc.inputs.len();
+            if k > 0 && names.len() >= k {
+                let want = &names[names.len() - k..];
+                let mut pairs: Vec<(String, String)> = vec![];
+                for (p, w) in lc.inputs.iter().zip(want.iter()) {
+                    let have = match p { syn::Pat::Ident(pi) => Some(pi.ident.to_string()), syn::Pat::Type(pt) => if let syn::Pat::Ident(pi) = &*pt.pat { Some(pi.ident.to_string()) } else { None }, _ => None };
+                    if let Some(h) = have { if &h != w && !w.starts_with('$') && !w.is_empty() { pairs.push((h, w.clone())); } }
+                }
+                if !pairs.is_empty() {
+                    let mut l2 = lc.clone();
+                    let mut body_ts = l2.body.to_token_stream();
+                    for (h, w) in &pairs { body_ts = rename_ident(body_ts, h, w); }
+                    l2.body = syn::parse2(body_ts).expect("closure body");
+                    struct RP<'a>(&'a [(String, String)]);
+                    impl<'a> syn::visit_mut::VisitMut for RP<'a> { fn visit_pat_ident_mut(&mut self, pi: &mut syn::PatIdent) { for (h, w) in self.0 { if pi.ident == h.as_str() { pi.ident = syn::Ident::new(w, pi.ident.span()); } } } }
+                    for p in l2.inputs.iter_mut() { syn::visit_mut::VisitMut::visit_pat_mut(&mut RP(&pairs), p); }
+                    cx.fire("L1n");
+                    out = Some(l2);
+                }
+            }
+        }
+        renamed = out; match &renamed { Some(l) => l, None => lc }
+    };
     let (gtxt_all, wtxt_all) = generics_text(gens, &[], cx);
     let kind = if lc.is_async_block { "async block" } else { "closure" };
     let sg0 = match specs.get(&format!("sig {}__new", lc.name)) { Some(s) => Some(s), None => specs.get(&format!("sig {}", lc.name)) };
@@ -760,7 +817,30 @@ fn emit_lifted(cx: &mut Ctx, specs: &mut Specs, em: &mut Emitter, gens: &[&syn::
         for k in specs.sections.keys() { if let Some(rest) = k.strip_prefix(&format!("captype {} ", ctor)) { named.push(rest.to_string()); } }
         if let Some(sg) = specs.sections.get(&format!("sig {}", ctor)).cloned() { named.extend(param_names(&positional(sg, lc))); }
         if let Some(sg) = specs.sections.get(&format!("sig {}", lc.name)).cloned() { named.extend(param_names(&positional(sg, lc)).into_iter().filter(|n| !inputs.contains(n) && !n.starts_with('_') && n != "ctx" && n != "actor")); }
-        let missing: BTreeSet<String> = named.into_iter().filter(|n| !capn.contains(n) && !inputs.contains(n)).collect();
+        let missing: BTreeSet<String> = named.iter().filter(|n| !capn.contains(*n) && !inputs.contains(*n)).cloned().collect();
+        // L1q: exactly one contract name is missing and exactly one capture is not named by the contract, and nothing known about that
+        // capture's type contradicts the contract: the capture was renamed; the lifted body uses the contract's name for it
+        let extra: Vec<usize> = lc.captures.iter().enumerate().filter(|(_, c)| { let cn = if c.as_str() == "self" { "this".to_string() } else { c.replace("self.", "self_") }; !named.contains(&cn) }).map(|(i, _)| i).collect();
+        if missing.len() == 1 && extra.len() == 1 && !missing.iter().next().unwrap().starts_with('$') {
+            let want = missing.iter().next().unwrap().clone(); let idx = extra[0]; let have = lc.captures[idx].clone();
+            let norm = |t: &str| -> String { let t: String = t.chars().filter(|c| !c.is_whitespace()).collect(); t.trim_start_matches("&mut").trim_start_matches('&').to_string() };
+            let declared: Option<String> = specs.sections.get(&format!("captype {} {}", ctor, want)).map(|t| norm(t)).or_else(|| {
+                let sg = specs.sections.get(&format!("sig {}", ctor)).or_else(|| specs.sections.get(&format!("sig {}", lc.name)))?;
+                let key = format!("{}:", want); let pos = sg.find(&key)?; let rest = &sg[pos + key.len()..];
+                let mut depth = 0i32; let mut ty = String::new();
+                for ch in rest.chars() { match ch { '<' | '(' | '[' => { depth += 1; ty.push(ch); } '>' | ']' => { depth -= 1; ty.push(ch); } ')' => { if depth == 0 { break; } depth -= 1; ty.push(ch); } ',' if depth == 0 => break, _ => ty.push(ch) } }
+                Some(norm(&ty)) });
+            let known = lc.cap_types.get(idx).cloned().flatten().map(|t| norm(&t));
+            let compatible = match (&declared, &known) { (Some(d), Some(k)) => d == k, _ => true };
+            if compatible && !have.contains('.') && have != "self" {
+                let mut l2 = lc.clone();
+                l2.captures[idx] = want.clone();
+                l2.body = syn::parse2(rename_ident(l2.body.to_token_stream(), &have, &want)).expect("closure body");
+                cx.fire("L1q");
+                // the construction site passes the captures positionally under their real names; nothing to change there
+                return emit_lifted(cx, specs, em, gens, &l2, file);
+            }
+        }
         if !missing.is_empty() {
             cx.soft.push(format!("lost anchor: closure `{}` no longer captures {} which its contract names; its constructor is emitted from what it captures now and its own obligations are undecided", lc.name, missing.iter().map(|m| format!("`{}`", m)).collect::<Vec<_>>().join(", ")));
             let keys: Vec<String> = specs.sections.keys().filter(|k| { let k = k.as_str(); k.ends_with(&format!(" {}", lc.name)) || k.contains(&format!(" {} ", ctor)) || k.ends_with(&format!(" {}", ctor)) || k.contains(&format!(" {} ", lc.name)) }).cloned().collect();
@@ -769,7 +849,7 @@ fn emit_lifted(cx: &mut Ctx, specs: &mut Specs, em: &mut Emitter, gens: &[&syn::
             let mut own = String::from("own_none()"); let mut ps = vec![]; let mut tps = vec![]; let mut any_typed = false;
             for (i, c) in lc.captures.iter().enumerate() {
                 let cn = if c == "self" { "this".to_string() } else { c.replace("self.", "self_") };
-                if typed_sig { ps.push(format!("{}: {}", cn, lc.cap_types.get(i).cloned().flatten().unwrap_or_else(|| "impl Sized".to_string()))); }
+                if typed_sig { ps.push(format!("{}: {}", cn, lc.cap_types.get(i).cloned().flatten().filter(|t| !t.starts_with('?')).unwrap_or_else(|| "impl Sized".to_string()))); }
                 else { match specs.sections.get(&format!("captype {} {}", ctor, cn)) { Some(t) => { any_typed = true; ps.push(format!("{}: {}", cn, t.trim())); } None => { tps.push(format!("HxT{}", i)); ps.push(format!("{}: HxT{}", cn, i)); } } }
                 own = format!("own_join({}, own_of(&{}))", own, cn);
             }
@@ -838,7 +918,7 @@ fn emit_lifted(cx: &mut Ctx, specs: &mut Specs, em: &mut Emitter, gens: &[&syn::
             let inner = sg.trim_start_matches('(').trim_end_matches(')').to_string();
             let names: Vec<String> = inner.split(',').map(|p| p.split(':').next().unwrap_or("").trim().to_string()).collect();
             let mut extra = vec![];
-            for (i, c) in lc.captures.iter().enumerate() { let cn = if c == "self" { "this".to_string() } else { c.replace("self.", "self_") }; if !names.contains(&cn) { match lc.cap_types.get(i).cloned().flatten() { Some(t) => extra.push(format!("{}: {}", cn, t)), None => extra.push(format!("{}: impl Sized", cn)) } } }
+            for (i, c) in lc.captures.iter().enumerate() { let cn = if c == "self" { "this".to_string() } else { c.replace("self.", "self_") }; if !names.contains(&cn) { match lc.cap_types.get(i).cloned().flatten().filter(|t| !t.starts_with('?')) { Some(t) => extra.push(format!("{}: {}", cn, t)), None => extra.push(format!("{}: impl Sized", cn)) } } }
             if !extra.is_empty() {
                 // parameters in capture order (the order the construction site passes them in)
                 let mut parts: Vec<String> = vec![]; let mut depth = 0i32; let mut cur = String::new();
@@ -922,7 +1002,7 @@ fn emit_lifted_body(cx: &mut Ctx, specs: &mut Specs, em: &mut Emitter, gens: &[&
         if !cur.trim().is_empty() { names.push(cur); }
         let names: Vec<String> = names.iter().map(|n| n.split(':').next().unwrap_or("").trim().trim_start_matches("mut ").to_string()).collect();
         for (i, c) in lc.captures.iter().enumerate() { if c != "self" && !names.contains(c) {
-            let ty = match lc.cap_types.get(i).cloned().flatten() { Some(t) => t, None => { extra_gen.push(format!("HxCap{}", i)); format!("HxCap{}", i) } };
+            let ty = match lc.cap_types.get(i).cloned().flatten().filter(|t| !t.starts_with('?')) { Some(t) => t, None => { extra_gen.push(format!("HxCap{}", i)); format!("HxCap{}", i) } };
             // a closure whose contracted captures are `&mut` is an FnMut: what else it captures is its own mutable state too
             let ty = if fnmut { format!("&mut {}", ty) } else { ty };
             params = format!("{}: {}{}{}", c, ty, if params.trim().is_empty() { "" } else { ", " }, params); cx.fire("L1x");
